@@ -132,10 +132,30 @@ def run(ctx, replay=None):
             try:
                 DV = dc.build(case)
                 _ = DV.experimental
-                what = rng.choice(['tolerance', 'azimuth', 'bandwidth', 'model'])
-                new = {'tolerance': rng.choice([20, 90, 150]), 'azimuth': rng.choice([0, 60, -100]), 'bandwidth': rng.choice(['q20', 'q60']), 'model': 'compass' if case['model'] == 'triangle' else 'triangle'}[what]
+                what = rng.choice(['tolerance', 'azimuth', 'bandwidth', 'model', 'dist_func', 'dist_func'])
+                new = {'tolerance': rng.choice([20, 90, 150]), 'azimuth': rng.choice([0, 60, -100]), 'bandwidth': rng.choice(['q20', 'q60']), 'model': 'compass' if case['model'] == 'triangle' else 'triangle',
+                       'dist_func': rng.choice([m_ for m_ in ('euclidean', 'cityblock', 'chebyshev') if m_ != case.get('dist_func', 'euclidean')])}[what]
                 if what == 'model':
                     DV.set_directional_model(new)
+                elif what == 'dist_func' and rng.random() < 0.5 and isinstance(case['bandwidth'], str):
+                    # a numeric bandwidth assigned after a quantile one has to survive a later change of the metric
+                    nb_ = float(np.round(float(DV.bandwidth) * 0.4 * 8) / 8.0 + 0.125)
+                    DV.bandwidth = nb_
+                    DV.set_dist_function(new)
+                    if not gen.close(nb_, float(DV.bandwidth), 1e-12, 1e-12):
+                        ctx.problem('oracle', 'a numeric bandwidth assigned in place is replaced when the metric is exchanged afterwards', dict(case, changed='bandwidth then dist_func', new=[nb_, new]),
+                                    {'assigned': nb_, 'in_effect': float(DV.bandwidth)}, {'what': 'inplace-bandwidth-then-dist_func'})
+                    case = dict(case, bandwidth=nb_)
+                elif what == 'dist_func':
+                    # the metric exchanged in place: a quantile bandwidth refers to the distances of the NEW metric
+                    if rng.random() < 0.5:
+                        DV.set_dist_function(new)
+                    else:
+                        DV.dist_function = new
+                    want_bw = dc.resolved_bandwidth(dict(case, dist_func=new))
+                    if not gen.close(want_bw, float(DV.bandwidth), 1e-12, 1e-12):
+                        ctx.problem('oracle', 'after the metric was exchanged in place the bandwidth in effect is not the bandwidth setting resolved for the new distances', dict(case, changed=what, new=new),
+                                    {'setting': case['bandwidth'], 'resolved_for_new_metric': want_bw, 'in_effect': float(DV.bandwidth)}, {'what': 'inplace-dist_func-bandwidth'})
                 else:
                     setattr(DV, what, new)
                 fresh = dc.build(dict(case, **{what: new}))
